@@ -1361,7 +1361,32 @@ impl ASN1Value {
                 },
             ) => {
                 if let Some(ToplevelDefinition::Value(tld)) = tlds.get(identifier) {
-                    *self = tld.value.clone();
+                    // Follow a chain of value references (`b BOOLEAN ::= c`, `c BOOLEAN ::= d`)
+                    // to its end; a chain that leads back into itself has no value.
+                    let mut seen = vec![identifier.as_str()];
+                    let mut target = tld;
+                    while let ASN1Value::ElsewhereDeclaredValue {
+                        module: None,
+                        parent: None,
+                        identifier: next,
+                    } = &target.value
+                    {
+                        if seen.contains(&next.as_str()) {
+                            return Err(grammar_error!(
+                                LinkerError,
+                                "Cyclic value reference while linking '{}'",
+                                next
+                            ));
+                        }
+                        match tlds.get(next) {
+                            Some(ToplevelDefinition::Value(t)) => {
+                                seen.push(next);
+                                target = t;
+                            }
+                            _ => break,
+                        }
+                    }
+                    *self = target.value.clone();
                     self.link_with_type(tlds, ty, type_name)?;
                 }
                 Ok(())
